@@ -4,10 +4,13 @@ CONSTANTS
  T = 2
  Byz = {3}
  ExVerify = TRUE
- Off = {}
+ Off = {"OneRoot", "ExchangeVerifies"}
  MDuties = {"c"}
  SigDuties = {}
  MRoots = {"A", "B"}
- Budget = 7
-INVARIANT Safety
+ Budget = 3
+ ByzBudget = 1
+ Prefix = "decided"
+ Acts = {"back"}
+INVARIANT OnlyVerifiedI
 CHECK_DEADLOCK FALSE
